@@ -15,7 +15,7 @@ HOOK_COMMITS = []
 SPEC_DIRS = {"C01": "RaceDriver", "C07": "RaceDriver", "C09": "RaceDriver", "C06": "Throughput", "C15": "BranchMatch"}
 
 
-MORE_SPEC_DIRS = {"C09": ["TrackPrep"], "C01": ["ActorSem"]}
+MORE_SPEC_DIRS = {"C09": ["TrackPrep"], "C01": ["ActorSem"], "C04": ["WireTiming"], "C18": ["WireTiming"]}
 
 
 def check(pid, text, note, technique, engine="tlc", design_ref=None, spec=None):
@@ -33,7 +33,8 @@ check(
     "TLC model-checks Throughput.tla (the calculator's TaskStats state machine; every arrival stream within the bounds x every cut into "
     "calculate() calls) against conservation / value / sample-type invariants; TLC-simulated behaviours are replayed into the real "
     "ThroughputCalculator with an exact Fraction clock and every recorded execution (also seeded random multi-task streams) is validated "
-    "by TLC against TraceThroughput.tla: the property formulas on the recorded TaskStats (L1) and step conformance to the spec (L2).",
+    "by TLC against TraceThroughput.tla: the property formulas on the recorded TaskStats (L1) and step conformance to the spec (L2). A driver leg validates every "
+    "ThroughputCalculator.calculate() call the REAL Driver makes in simulated races (periodic post-processing and join points; whatever calculator object is in use) against the same trace spec.",
     "Bounds: <=5 samples, 2 clients, times <= 2.5 s exhaustive; wider alphabets by simulation. Trusted: TLC, the projection of TaskStats "
     "(attributes read directly), dyadic times so that the implementation's arithmetic is exact.",
     "TLA+ spec + TLC exhaustive model checking; spec-to-code replay of TLC behaviours; TLC trace validation of recorded executions",
@@ -44,7 +45,8 @@ check(
     "TLC enumerates every subset of a 9/13-branch universe x every version (BranchMatch.tla) and checks that the transcription of "
     "versions.best_match equals the documented precedence plus corollaries (never another major, never a later minor, master only if "
     "newer/unknown, error iff nothing qualifies); every TLC state is replayed on the real best_match, sampled states become real git "
-    "repositories (remote, local branches, v-tags) run through RallyRepository.update; all recorded results are validated by TLC.",
+    "repositories (remote, local branches, v-tags; branches deleted upstream after the clone; a working copy with uncommitted changes) run through RallyRepository.update; all recorded results are "
+    "validated by TLC (also: the revision Rally records is the commit in use; with a dirty working copy Rally ends on the best match or reports an error).",
     "Bounds: majors 5..9, minors 0..4, patches {0,2}, 3 suffixes; wider numbers only by seeded random cases. git is trusted. "
     "A master branch is assumed to exist.",
     "TLA+ transcription + TLC exhaustive enumeration; every state replayed on the implementation; TLC validation of recorded results",
@@ -205,9 +207,11 @@ check(
     "AsyncExecutor / execute_single / Sampler, actions in the code's order of clock reads) over every service-time/overhead/outcome/weight sequence for every pacing and unit variant, against "
     "proc >= svc >= 0, svc = wire span, not-before-schedule, latency = response - scheduled time (throttled) / = service time (unthrottled), one sample per request carrying client/task/type/issue "
     "time. TLC-simulated behaviours are executed by the real code on a virtual-time asyncio loop with a scripted fake client; every recorded run (also seeded random dyadic and millisecond ones) is "
-    "validated by TLC against TraceClientLoop.tla (L1 clauses on the record, L2 step conformance for tick-exact runs).",
-    "Bounds: <= 2 clients / parallel of <= 4 exhaustively, <= 3 iterations or <= 5 ticks, svc <= 2*interval+1, <= 1 error, weights {1,2}; wider by simulation/random. Trusted: vclock (time passes "
-    "only in asyncio.sleep and the scripted request), dyadic parameters for exact floats (else 1 ms rounding, tolerance 3 ms). The first request of a throttled task is scheduled at 0 (named in the model).",
+    "validated by TLC against TraceClientLoop.tla (L1 clauses on the record, L2 step conformance for tick-exact runs). An element leg runs parallel elements (over-committed or not) through the "
+    "real Allocator -> ClientAllocations -> AsyncIoAdapter; a wire leg runs the REAL client of EsClientFactory.create_async() (aiohttp trace hooks) against a scripted loopback HTTP server in real time "
+    "and lets TLC judge the recorded start/end against the server-side instants (WireTiming.tla).",
+    "Bounds: <= 2 clients / parallel of <= 4 exhaustively, <= 3 iterations or <= 5 ticks, svc <= 2*interval+1, <= 1 error, weights {1,2}; wider by simulation/random; schedule offsets down to 1/2048 s. Trusted: vclock (time passes "
+    "only in asyncio.sleep and the scripted request), dyadic parameters for exact floats (else 1 ms rounding, tolerance 3 ms). Wire leg: real time, injected delays 0.15-0.4 s, tolerance max(50 ms, 40% of the smallest delay). The first request of a throttled task is scheduled at 0 (named in the model).",
     "timed TLA+ spec + TLC exhaustive checking; spec-to-code replay of TLC behaviours on a virtual clock; TLC trace validation",
     engine="tlc+vclock",
     spec="ClientLoop",
@@ -255,7 +259,9 @@ check(
     "WireStart, WireEnd per chunk, Exit with propagation, Spawn, Join) over every program within the bounds, every interleaving and completion order, for SpanStart, SpanEnd, LeafExact and "
     "NoLeak; the as-written variant must violate them in the model and its counterexamples are executed on the real code. TLC -simulate behaviours are executed step by step by scripted "
     "coroutines on the real RequestContextHolder/Manager under a virtual clock, and projected onto composite requests run by the real AsyncExecutor -> Composite -> RequestTiming -> runners "
-    "against a scripted fake ES with all clients in one loop. Every recording plus seeded random cases is validated by TLC against TraceReqContext.tla.",
+    "against a scripted fake ES with all clients in one loop. Every recording plus seeded random cases is validated by TLC against TraceReqContext.tla. A wire leg runs the REAL client of "
+    "EsClientFactory.create_async() (aiohttp trace hooks) against a scripted loopback HTTP server (late headers, streamed bodies, timeouts, closed sockets; several wire requests and nested contexts per "
+    "logical request) in real time; TLC judges recorded start/end against the server-side instants (WireTiming.tla).",
     "Exhaustive bounds: <= 2 clients, <= 4 tasks, <= 4 contexts, depth <= 3, <= 3 concurrent children, <= 4 wire requests, <= 2 extra chunks (split over three cfgs); simulation wider. "
     "Nothing is claimed for a context without any wire request.",
     "TLA+ spec + TLC exhaustive checking under a rank view; replay of TLC behaviours and counterexamples into real coroutines and the real AsyncExecutor/Composite; TLC trace validation",
